@@ -130,6 +130,32 @@ def line_parser_rules(ctx):
                       "an expectation line is handed to the expectation parser as written", "an expectation line flows through %s" % ch)
     ctx.check(n_cmd == 2, "command-pushes", lp.where(), "`$ ` starts and `> ` continues a command (two pushes)", "found %d command pushes" % n_cmd)
     # guard of the `$ ` branch: allow_multiple_commands || command.is_empty()
+    # the `> ` continuation is only honoured directly after a command line: every path that stores no command line (exit code line, expectation
+    # line) leaves the `in command` flag false - otherwise an output line starting with `> ` right after `[n]` is swallowed into the command
+    flag_stores = {}
+    for bi, blk in enumerate(lp.blocks):
+        if blk["cleanup"]:
+            continue
+        for st in blk["stmts"]:
+            if st["k"] == "assign" and st["lhs"]["p"] and st["rv"]["k"] == "use" and "const" in st["rv"]["op"] and st["rv"]["op"]["const"]["ty"] == "bool":
+                nm = [p_.get("n") for p_ in st["lhs"]["p"] if isinstance(p_, dict)][-1:]
+                if nm:
+                    flag_stores.setdefault(nm[0], []).append((bi, bool(int(st["rv"]["op"]["const"]["val"].get("bits", 0)))))
+    flags = [k for k, v in flag_stores.items() if {x for _, x in v} == {True, False}]
+    if len(flags) != 1:
+        ctx.bad("in-command-flag", lp.where(), "the flag that remembers `the previous line was a command line` was not found (bool fields written: %s)" % sorted(flag_stores))
+    else:
+        resets = [bi for bi, val in flag_stores[flags[0]] if val is False]
+        cmd_pushes = [pb for pb, pt in pushes if lp.arg_name(pt["args"][0]).endswith(prog.field_by_type("LineParser", "Vec<String>", "command"))]
+        leaky = [rb for rb in lp.return_blocks() if rb in lp.reachable(0, removed_blocks=resets + cmd_pushes)]
+        # error returns (bail!) are irrelevant: only Ok results continue parsing
+        from ..cfgq import result_variant_blocks
+        oks = {b for b, _, _ in result_variant_blocks(lp, "Ok")}
+        ok_leaks = [b for b in oks if b in lp.reachable(0, removed_blocks=resets + cmd_pushes)]
+        ctx.check(not ok_leaks, "in-command-reset", lp.where(),
+                  "every line that is not stored as a command line resets the `%s` flag (a `> ` line continues a command only directly after it)" % flags[0],
+                  "an exit-code or expectation line can be accepted without resetting `%s`: an output line starting with `> ` after `[n]` is appended to the shell "
+                  "expression instead of becoming an expectation" % flags[0])
     ex = _call(lp, "extract_exit_code")
     ctx.check(len(ex) == 1 and peel(ol.operand(ex[0][1]["args"][0])).kind == "arg", "exit-code-line", lp.where(), "the exit code is extracted from the unmodified line")
 
